@@ -59,9 +59,15 @@ func (f *RecFSM) Read(cmd interface{}) interface{} {
 
 type fsmState struct {
 	list []string
+	dir  string
 }
 
 func (s *fsmState) Persist(w io.Writer) error {
+	// (the snapshot goroutine: the sink exists, nothing is published yet - a
+	// place where the harness can hold a snapshot that is being written)
+	if raft.VerifPoint != nil {
+		raft.VerifPoint(s.dir, "fsm.persist")
+	}
 	bw := bufio.NewWriter(w)
 	for _, id := range s.list {
 		if _, err := bw.WriteString(id); err != nil {
@@ -83,7 +89,7 @@ func (f *RecFSM) Snapshot() (raft.FSMState, error) {
 	cp := make([]string, len(f.list))
 	copy(cp, f.list)
 	f.rc.emitNode(f.dir, &ev.Rec{K: "fsm-snapshot", Cnt: int64(len(cp)), H: f.roll})
-	return &fsmState{list: cp}, nil
+	return &fsmState{list: cp, dir: f.dir}, nil
 }
 
 // Restore implements raft.FSM.
